@@ -1,4 +1,5 @@
 import LiquidVerif.Lemmas.Mode
+import LiquidVerif.Lemmas.ModeSim
 import LiquidVerif.Gen.ModeSites
 /-!
 # C03 — lax and warn modes suppress errors without changing correct output
@@ -128,6 +129,28 @@ theorem warn_reports_each_parse (c : Cfg σ) (h : c.mode = .warn) (src : List (T
 theorem lax_emits_no_warning (c : Cfg σ) (h : c.mode = .lax) (src : List (Tok σ)) (st : σ) (out log)
     (hr : run c src st = .ok out log) : log.warnings = [] :=
   run_log_inv c (silent_stable c h) rfl src st out log hr
+
+/-- "warn mode behaves the same": a warn-mode run and a lax-mode run are the same computation — same outcome, same
+    output, same suppressed errors in the same order; the lax result is the warn result with the warnings erased. -/
+theorem warn_same_as_lax (c : Cfg σ) (src : List (Tok σ)) (st : σ) :
+    run (c.withMode .lax) src st = (run (c.withMode .warn) src st).silent :=
+  run_sim c src st
+
+/-- the same for `env.from_string` alone: same nodes, same suppressed errors -/
+theorem warn_same_as_lax_parse (c : Cfg σ) (src : List (Tok σ)) (nodes : List (Node σ)) (log : Log)
+    (h : parseTemplate (c.withMode .warn) src {} = .ok (nodes, log)) :
+    parseTemplate (c.withMode .lax) src {} = .ok (nodes, log.silent) := by
+  have hp := parseTemplate_sim c src {}
+  have h0 : ({} : Log).silent = {} := rfl
+  rw [h0, h] at hp
+  exact hp
+
+/-- spelled out on outputs: if warn returns `out` having suppressed `log.suppressed`, lax returns the same `out`
+    having suppressed the same errors, silently -/
+theorem warn_ok_implies_lax_same (c : Cfg σ) (src : List (Tok σ)) (st : σ) (out : String) (log : Log)
+    (h : run (c.withMode .warn) src st = .ok out log) :
+    run (c.withMode .lax) src st = .ok out { suppressed := log.suppressed, warnings := [] } := by
+  rw [warn_same_as_lax, h]; rfl
 
 /-- with the table generated from `liquid/exceptions.py` the categories are those of `WARNINGS` -/
 theorem warn_reports_each_generated (c : Cfg σ) (h : c.mode = .warn) (ht : c.warnTable = Gen.ModeSites.warnings)
